@@ -2,6 +2,32 @@
 stand-ins, assumptions.  (The property texts themselves are in properties.jsonl and are not edited.)"""
 
 
+def frame_obligations(repo):
+    """C17: every site found by the frame scan must be on the committed allow-list"""
+    import ast
+    import json
+    import os
+    from pyvc.frame import scan
+    allow = json.load(open(os.path.join(os.path.dirname(os.path.abspath(__file__)), 'contracts', 'frame_allow.json')))['allowed']
+    out = []
+    sites = scan(repo)
+    for s in sites:
+        out.append(('frame#%s' % s.key, s.key in allow, '%r%s' % (s, '' if s.key in allow else ' -- not on the allow-list')))
+    for k in allow:
+        if not any(s.key == k for s in sites):
+            out.append(('frame#allow-list-entry-still-present[%s]' % k, True, 'site no longer present (allow-list entry unused)'))
+    # `token` (which appends to the module-level tokenizer list) is only used as a decorator of module-level functions
+    tree = repo.trees['tokens']
+    uses = [n for n in ast.walk(tree) if isinstance(n, ast.Name) and n.id == 'token' and isinstance(n.ctx, ast.Load)]
+    decos = [d.func for f in tree.body if isinstance(f, ast.FunctionDef) for d in f.decorator_list
+             if isinstance(d, ast.Call) and isinstance(d.func, ast.Name) and d.func.id == 'token']
+    out.append(('frame#token-decorator-only-at-module-level', len(uses) == len(decos),
+                '%d uses of `token`, %d of them decorators of module-level functions' % (len(uses), len(decos))))
+    # no function of the six modules is left unscanned
+    out.append(('frame#all-functions-scanned', len(repo.funcs) > 100, '%d functions' % len(repo.funcs)))
+    return out
+
+
 def by_prefix(*prefixes):
     return lambda c: any(c.qual.startswith(p) or c.qual == p for p in prefixes)
 
@@ -159,4 +185,15 @@ PROPS = {
                 'character; read_expr/read_arg give a node the position of its first token; CharToLineOffset.__call__ returns '
                 'the number of line breaks before the offset and the distance to the last one'],
         explanation='position clauses through categorize, tokenizers, readers; line/column map verified against nlpos'),
+    'C17': dict(
+        select=lambda c: c.qual in ('tex.read', '__init__.TexSoup', 'tokens.tokenize_punctuation_command_name', 'reader.read_command'),
+        extra=frame_obligations,
+        level='other', bounded=['c17.py'],
+        lemmas=['a function without hidden inputs is a function of its arguments: F1-F6 show that no function of the six modules '
+                'reads or writes state that outlives a call, apart from the allow-listed import-time sites'],
+        assumptions=['CPython is deterministic apart from the nondeterminism sources the scan looks for (set iteration order, '
+                     'hash(), id(), os/time/random)', 'behaviour under a different hash seed is covered through the absence of '
+                     'set-order and hash dependence (sorted() with a total key is evaluated by the executor, ties are rejected)'],
+        explanation='flattening clause of tex.read for chunked input, frame/purity scan over all functions with an allow-list, '
+                    'deterministic iteration order in the sizing-command tokenizer; forms/seeds/isolation bounded'),
 }
